@@ -13,7 +13,8 @@ from .wf import wf, install_poison
 BOOL_OPTS = ["retain_names", "retain_coefficients", "sort_graded", "sort_reverse", "display_graded", "display_reverse",
              "display_inverse", "force_number_suffix"]
 
-OPS = ["construct", "add", "sub_self", "mul", "pow", "derivative", "gradient", "call_num", "call_partial", "getitem",
+OPS = ["construct", "add", "sub_self", "mul", "pow", "derivative", "gradient", "call_num", "call_partial", "call_staged",
+       "call_staged_none", "hessian", "divmod", "getitem",
        "align", "pickle", "sum", "concatenate", "where", "astype", "isconstant_tonumpy", "equal", "clean"]
 
 
@@ -24,7 +25,11 @@ def gen(tier, rng):
         if rng.random() < 0.3:
             opts["display_exponent"] = rng.choice(["^", "**"])
             opts["display_multiply"] = rng.choice([" ", "*"])
-        yield {"op": rng.choice(OPS), "opts": opts,
+        op = rng.choice(OPS)
+        if op == "divmod":
+            # C15's quantifier: division is checked under the default retain options only
+            opts["retain_names"], opts["retain_coefficients"] = True, False
+        yield {"op": op, "opts": opts,
                "a": rand_poly(rng, shape=rng.choice([(), (2,), (2, 2)]), pool=[-1, 0, 0, 1, 2], maxterms=3),
                "b": rand_poly(rng, shape=rng.choice([(), (2,)]), pool=[-1, 0, 1], maxterms=2)}
 
@@ -48,6 +53,27 @@ def run_op(op, a, b, numpoly):
         return a(*[2] * len(a.names))
     if op == "call_partial":
         return a(**{a.names[0]: b})
+    if op == "call_staged":
+        # fix the first indeterminate, then supply the others positionally (placeholders keep their position)
+        D = len(a.names)
+        first = a(2)
+        if D == 1 or not isinstance(first, numpoly.ndpoly):      # a constant result is a plain array
+            return first
+        return first(*([None] + [3] * (D - 1)))
+    if op == "call_staged_none":
+        D = len(a.names)
+        if D == 1:
+            same = a(None)
+            return same(4) if isinstance(same, numpoly.ndpoly) else same
+        second = a(*([None] * (D - 1) + [3]))
+        if not isinstance(second, numpoly.ndpoly):
+            return second
+        return second(*([2] * (D - 1) + [None]))
+    if op == "hessian":
+        return numpoly.hessian(a)
+    if op == "divmod":
+        q, r = numpoly.poly_divmod(a * b + 1, b + 2)
+        return q * (b + 2) + r
     if op == "getitem":
         return a[..., None][..., 0]
     if op == "align":
